@@ -61,6 +61,7 @@ type csummary struct {
 	escapes map[int]string
 	returns map[int]bool
 	clipped map[int]bool // every returned value rooted in the parameter has capacity = length
+	retFld  []croot      // container fields whose header the (unexported) function returns to its callers inside the package
 	appends map[int]bool // appended to as a whole (in place when the caller passes a value with spare capacity)
 	recut   map[int]bool // some returned value rooted in the parameter went through a slice expression (other bounds)
 }
@@ -236,6 +237,8 @@ func (s *cscan) origins(fn *ssa.Function, v ssa.Value, depth int, seen map[ssa.V
 			if sum == nil {
 				continue
 			}
+			// an unexported helper that returns the field's header: its callers hold the header now
+			out = append(out, sum.retFld...)
 			for j := range sum.returns {
 				if arg := argFor(c, callee, j); arg != nil {
 					for _, r := range s.origins(fn, arg, depth+1, seen) {
@@ -302,6 +305,13 @@ func (s *cscan) summaryOf(fn *ssa.Function) *csummary {
 			any = true
 		}
 	}
+	if fn.Signature.Results() != nil {
+		for i := 0; i < fn.Signature.Results().Len(); i++ {
+			if isContainerType(fn.Signature.Results().At(i).Type()) && inModule(fn) {
+				any = true
+			}
+		}
+	}
 	if !any {
 		s.summary[fn] = &csummary{}
 		return s.summary[fn]
@@ -310,6 +320,11 @@ func (s *cscan) summaryOf(fn *ssa.Function) *csummary {
 	sum := &csummary{writes: map[int]string{}, escapes: map[int]string{}, returns: map[int]bool{}, clipped: map[int]bool{}, recut: map[int]bool{}, appends: map[int]bool{}}
 	for _, ev := range s.scan(fn) {
 		if ev.root.fa != nil {
+			if ev.kind == "ret" {
+				r := ev.root
+				r.load = nil
+				sum.retFld = append(sum.retFld, r)
+			}
 			continue
 		}
 		if ev.kind == "escape" && strings.HasPrefix(ev.how, "returned") {
@@ -369,6 +384,12 @@ func opaqueMutator(f *ssa.Function) bool {
 		}
 	}
 	return false
+}
+
+// internalOnly: a declared function or method with an unexported name — every caller is in the package
+// and is analysed (function values handed out are not followed)
+func internalOnly(fn *ssa.Function) bool {
+	return fn.Parent() == nil && fn.Synthetic == "" && !token.IsExported(fn.Name()) && fn.Name() != "init"
 }
 
 func sameVal(a, b ssa.Value) bool {
@@ -470,7 +491,14 @@ func (s *cscan) scan(fn *ssa.Function) []cevent {
 			switch x := ins.(type) {
 			case *ssa.Return:
 				for _, r := range x.Results {
-					emit(org(r), "escape", "returned without a copy", ins)
+					for _, root := range org(r) {
+						if root.fa != nil && internalOnly(fn) {
+							// judged at the callers (origins() continues through the call)
+							emit([]croot{root}, "ret", "returned to the callers inside the package", ins)
+						} else {
+							emit([]croot{root}, "escape", "returned without a copy", ins)
+						}
+					}
 				}
 			case *ssa.Store:
 				if ia, ok := x.Addr.(*ssa.IndexAddr); ok {
